@@ -33,6 +33,7 @@ audit, `load@post` the rest; the translator aborts unless construct() is only ca
 from __future__ import annotations
 
 import ast
+import builtins as builtins_mod
 import json
 import os
 import sys
@@ -104,6 +105,13 @@ EFFECT_METHODS = {
 SKOPS_RESOLVERS = {"gettype": "resolve", "_import_obj": "resolve"}
 # computed-name getattr/setattr that are accepted: (function) -> condition checked below
 KWARGS_ATTR_OK = {"_audit.temp_setattr"}
+
+
+def is_setattr_helper(key: str) -> bool:
+    """a helper of the audit framework that temporarily sets attributes named by ITS CALLERS' literal keyword arguments
+    (temp_setattr as a generator function, or rewritten as a small context-manager class); call sites are checked below"""
+    parts = key.split(".")
+    return parts[0] == "_audit" and any("setattr" in p.lower() for p in parts[1:-1] + parts[-1:]) and "setattr" != parts[-1]
 
 
 def modkey(path: Path) -> str:
@@ -412,7 +420,7 @@ def scan():
                     if name in ("getattr", "setattr", "delattr") and name not in locs:
                         if len(n.args) >= 2 and isinstance(n.args[1], ast.Constant) and isinstance(n.args[1].value, str):
                             continue
-                        if fn.key in KWARGS_ATTR_OK:
+                        if fn.key in KWARGS_ATTR_OK or is_setattr_helper(fn.key):
                             continue
                         into_effects.add(f"resolve:{name}(computed name)")
                         continue
@@ -475,7 +483,7 @@ def scan():
                         if EFFECT_BUILTINS[name]:
                             into_effects.add(f"{EFFECT_BUILTINS[name]}:builtins.{name}")
                         continue
-                    if name in PURE_BUILTINS:
+                    if name in PURE_BUILTINS or hasattr(builtins_mod, name):
                         continue
                     raise Abort(f"{fn.key} (line {n.lineno}) calls the unknown name {name!r}")
                 elif isinstance(f, ast.Attribute):
@@ -548,10 +556,13 @@ def scan():
         relabel_memory_writers(fn)
 
     # every call site of a KWARGS_ATTR_OK function passes literal keywords only
-    for key in KWARGS_ATTR_OK:
+    helper_keys = set(KWARGS_ATTR_OK) | {k for k in funcs if is_setattr_helper(k)}
+    for key in sorted(helper_keys):
         if key not in funcs:
             continue
-        simple = key.rsplit(".", 1)[-1]
+        parts = key.split(".")
+        # function form: the function's own name; class form (Cls.__init__ / __enter__ / __exit__): the class name
+        simple = parts[-2] if len(parts) >= 3 and parts[-1].startswith("__") else parts[-1]
         for mod, tree in mods.items():
             for n in ast.walk(tree):
                 if isinstance(n, ast.Call) and ((isinstance(n.func, ast.Name) and n.func.id == simple) or (isinstance(n.func, ast.Attribute) and n.func.attr == simple)):
@@ -570,7 +581,9 @@ def scan():
                             yield f"{mod}.{top.name}", c
     if "_utils.whichmodule" in funcs:
         for where, c in call_sites("whichmodule"):
-            if not (where == "_utils.get_module" and ast.unparse(c) == "whichmodule(obj, obj.__name__)"):
+            shape_ok = (len(c.args) == 2 and not c.keywords and isinstance(c.args[0], ast.Name) and isinstance(c.args[1], ast.Attribute)
+                        and c.args[1].attr == "__name__" and isinstance(c.args[1].value, ast.Name) and c.args[1].value.id == c.args[0].id)
+            if not (where == "_utils.get_module" and shape_ok):
                 raise Abort(f"whichmodule is called from {where} as {ast.unparse(c)}: the name is no longer the object's own __name__")
         for where, c in call_sites("_getattribute"):
             if where not in ("_utils.whichmodule",):
